@@ -10,6 +10,8 @@
    Lang/ExcDecl.v (the exception classes named by except clauses and their file-scope declarations).
    Lang/EmitScope.v (C++ block scoping of function bodies: one declaration per name and scope; the block structure of the
    text _emit_block produces for every IR node kind).
+   Lang/CompScope.v (list comprehensions: the lambda's parameter scope, and the declarations caused by a sequence of assignments over
+   the var_types bracket of Lang/InferComp.v, against lexical scoping).
    The C++ type checker is not modelled: it is g++ itself, run by harness/props/c06.py. *)
 From Coq Require Import ZArith List Bool Sorting.Sorted.
 From RV Require Import Base.Wire Base.Text Lang.Escape Lang.Sections Proofs.EscapeP Proofs.SectionsP.
@@ -17,6 +19,7 @@ From RV Require Import Lang.StmtAst Lang.Transl Lang.Scope Proofs.ScopeP.
 From RV Require Lang.Headers Proofs.HeadersP Lang.FnSelect Proofs.FnSelectP Lang.CAst.
 From RV Require Lang.EmitScope Proofs.EmitScopeP Lang.Globals Proofs.GlobalsP.
 From RV Require Gen.Reserved Lang.Reserved Proofs.ReservedP Lang.ExcDecl Proofs.ExcDeclP.
+From RV Require Lang.PyAst Lang.Infer Lang.InferComp Lang.CompScope Proofs.CompScopeP Lang.Decl.
 Import ListNotations.
 Open Scope Z_scope.
 
@@ -625,3 +628,115 @@ Example C06_exception_classes_nonvacuous :
   XD.dots_to_colons [97;46;98;46;69;114;114] = [97;58;58;98;58;58;69;114;114].
 Proof. exact ExcDeclP.demo. Qed.
 Print Assumptions C06_exception_classes_nonvacuous.
+
+(* ---------------------------------------------------------------- names bound in a scope of their own: list comprehensions *)
+
+Module CS := Lang.CompScope.
+
+(* C++ side.  [elt for t in range(n)] becomes a lambda `[&](int t) { return elt; }`: t is declared as the parameter of a block of
+   its own.  For EVERY right-hand side (comprehensions nested to any depth, targets named like each other, like the assigned
+   variable, like any variable of the enclosing scopes) and every state of the enclosing scopes, the text declares nothing
+   twice and leaves the enclosing scopes exactly as they were: the outer declaration of a name the comprehension re-uses is
+   neither hidden after it nor redeclared by it *)
+Theorem C06_comprehension_scope_closed : forall (r : InferComp.rhs) (top : list ES.cname) (u : list (list ES.cname)),
+  ES.scan (top :: u) (CS.comp_toks r) = Some (top :: u).
+Proof. exact CompScopeP.comp_toks_closed. Qed.
+Print Assumptions C06_comprehension_scope_closed.
+
+(* ... inside the lambda the innermost scope holds the comprehension variable and nothing else *)
+Theorem C06_comprehension_target_own_scope : forall t n elt (stk : list (list ES.cname)) (rest : list ES.tok),
+  ES.scan stk (CS.comp_toks (InferComp.RComp t n elt) ++ rest) =
+  ES.scan ([ES.CUser t] :: stk) (CS.comp_toks elt ++ [ES.TClose] ++ rest).
+Proof. exact CompScopeP.comp_target_own_scope. Qed.
+Print Assumptions C06_comprehension_target_own_scope.
+
+(* a block made of any sequence of assignments  x = expression | comprehension  (first assignment = declaration): no name is
+   declared twice in it, whatever names the comprehensions use, as long as the bookkeeping `declared` knows the names the
+   block holds already *)
+Theorem C06_assignments_block_scoped : forall (l : list (text * InferComp.rhs)) (declared : list text)
+    (top : list ES.cname) (u : list (list ES.cname)),
+  (forall x, ES.cmem (ES.CUser x) top = true -> tmem x declared = true) ->
+  exists top', ES.scan (top :: u) (CS.prog_toks declared l) = Some (top' :: u).
+Proof. exact CompScopeP.prog_scoped. Qed.
+Print Assumptions C06_assignments_block_scoped.
+
+(* Python side, the recorded types (var_types is one mutable table that the comprehension writes its target into while it works
+   on the element): for every user-function table, every state and every assignment whose plain sub-expressions do not
+   change var_types by themselves (guard rhs_pure: no `name + "text"` contagion - unit C02), the assignment changes the
+   recorded type of the ASSIGNED name only - in particular not the one of a comprehension target *)
+Theorem C06_assignment_keeps_other_types : forall F A C (st : CS.dstate) x r st' y,
+  InferComp.rhs_pure F A C (CS.ds_types st) r = true -> CS.assign_decl F A C st x r = Some st' -> text_eqb y x = false ->
+  tlookup y (CS.ds_types st') = tlookup y (CS.ds_types st).
+Proof. exact CompScopeP.assign_keeps_other_types. Qed.
+Print Assumptions C06_assignment_keeps_other_types.
+
+(* hence the declarations a sequence of assignments causes are those of LEXICAL scoping (ref_decls: each element typed under a
+   table extended by its target, the extension invisible to every later statement): every variable is declared with the C++
+   type of the label of its first assignment, read off the declarations of the variables that assignment mentions *)
+Theorem C06_declarations_are_lexical_partial : forall F A C (l : list (text * InferComp.rhs)) (st st' : CS.dstate),
+  CS.pure_run F A C (CS.ds_types st) l = true -> CS.run_decls F A C st l = Some st' ->
+  exists ds, CS.ref_decls F A C (CS.ds_types st) (CS.ds_declared st) l = Some ds /\ CS.ds_decls st' = CS.ds_decls st ++ ds.
+Proof. exact CompScopeP.run_is_lexical. Qed.
+Print Assumptions C06_declarations_are_lexical_partial.
+
+(* one declaration per name - for ANY inference function, also a wrong one *)
+Theorem C06_assignments_declare_once : forall inf (l : list (text * InferComp.rhs)) (st st' : CS.dstate),
+  CS.run_with inf st l = Some st' ->
+  NoDup (map fst (CS.ds_decls st)) /\ incl (map fst (CS.ds_decls st)) (CS.ds_declared st) ->
+  NoDup (map fst (CS.ds_decls st')) /\ incl (map fst (CS.ds_decls st')) (CS.ds_declared st').
+Proof. exact CompScopeP.run_declares_once. Qed.
+Print Assumptions C06_assignments_declare_once.
+
+(* the `finally` of the comprehension must RESTORE the saved entry: with a `finally` that always pops it,
+   v = 2.5 ; xs = [v * 2 for v in range(3)] ; w = v   declares  int w  for a value that is the float v *)
+Theorem C06_popping_finally_refuted :
+  exists l st', CS.pure_run [] [] None [] l = true /\ CS.run_pop [] [] None CS.st_empty l = Some st' /\
+                CS.ref_decls [] [] None [] [] l <> Some (CS.ds_decls st').
+Proof. exact CompScopeP.pop_refuted. Qed.
+Print Assumptions C06_popping_finally_refuted.
+
+Example C06_comprehension_reuse_demo :
+  CS.pure_run [] [] None [] CS.reuse_prog = true /\
+  option_map CS.ds_decls (CS.run_decls [] [] None CS.st_empty CS.reuse_prog) =
+    Some [(CS.n_v, Infer.CFloat); (CS.n_xs, Infer.CList Infer.CInt); (CS.n_w, Infer.CFloat)] /\
+  CS.ref_decls [] [] None [] [] CS.reuse_prog =
+    Some [(CS.n_v, Infer.CFloat); (CS.n_xs, Infer.CList Infer.CInt); (CS.n_w, Infer.CFloat)] /\
+  option_map CS.ds_decls (CS.run_pop [] [] None CS.st_empty CS.reuse_prog) =
+    Some [(CS.n_v, Infer.CFloat); (CS.n_xs, Infer.CList Infer.CInt); (CS.n_w, Infer.CInt)].
+Proof. exact CompScopeP.reuse_demo. Qed.
+Print Assumptions C06_comprehension_reuse_demo.
+
+(* v = "cm" ; xs = [[v + 1 for v in range(2)] for v in range(3)] ; w = v ; v = "mm" : three declarations, seven scope tokens,
+   the block ends with w, xs, v in ONE scope; a doubly nested comprehension over v inside a scope that holds v is closed *)
+Example C06_comprehension_scope_nonvacuous :
+  CS.pure_run [] [] None [] CS.nested_prog = true /\
+  option_map CS.ds_decls (CS.run_decls [] [] None CS.st_empty CS.nested_prog) =
+    Some [(CS.n_v, Infer.CString); (CS.n_xs, Infer.CList (Infer.CList Infer.CInt)); (CS.n_w, Infer.CString)] /\
+  option_map (fun st => tlookup CS.n_v (CS.ds_types st)) (CS.run_decls [] [] None CS.st_empty CS.nested_prog) = Some (Some Infer.TString) /\
+  length (CS.prog_toks [] CS.nested_prog) = 7%nat /\
+  ES.scan [[]] (CS.prog_toks [] CS.nested_prog) = Some [[ES.CUser CS.n_w; ES.CUser CS.n_xs; ES.CUser CS.n_v]] /\
+  ES.scan [[ES.CUser CS.n_v]] (CS.comp_toks (InferComp.RComp CS.n_v (PyAst.EInt 3) (InferComp.RComp CS.n_v (PyAst.EInt 2) (InferComp.RPlain (PyAst.EName CS.n_v))))) = Some [[ES.CUser CS.n_v]].
+Proof. exact CompScopeP.nested_demo. Qed.
+Print Assumptions C06_comprehension_scope_nonvacuous.
+
+(* the binder that gets NO scope of its own: a function that assigns a name which is also a module-level variable (Python: a local
+   of the function).  label = "ab" ; def twice(): label = 4 ; return label * 2 : the function is emitted with no local at all and
+   returns int, the only declaration of label is the String global - the assignment of an int-labelled value writes to a
+   declaration of another type (F-C06-fn-local-shadows-global; g++: invalid conversion).  Over Lang/Decl.v, the model of
+   _parse_function that unit C02 ties to parser.py *)
+Theorem C06_fn_local_shadows_global_refuted :
+  exists ps d,
+    Decl.run_items None CS.shadow_items = Some ps /\ Decl.selected_functions (Decl.p_fe ps) = [(CS.n_twice, d)] /\
+    Decl.p_globals ps = [(CS.n_label, Infer.CString)] /\ Decl.fd_locals d = [] /\ Decl.fd_params d = [] /\ Decl.fd_ret d = Infer.CInt /\
+    Infer.infer_s [] [] None [] (PyAst.EInt 4) = Some (Infer.TInt, []) /\
+    CS.fn_assign_consistent (Decl.p_globals ps) d CS.n_label Infer.TInt = false.
+Proof. exact CompScopeP.fn_local_shadows_global. Qed.
+Print Assumptions C06_fn_local_shadows_global_refuted.
+
+(* inside the guard (the global and the function's value have one type) the same shape is consistent *)
+Example C06_fn_assigns_global_same_type :
+  exists ps d,
+    Decl.run_items None CS.same_type_items = Some ps /\ Decl.selected_functions (Decl.p_fe ps) = [(CS.n_twice, d)] /\
+    CS.fn_assign_consistent (Decl.p_globals ps) d CS.n_label Infer.TInt = true.
+Proof. exact CompScopeP.fn_assigns_global_same_type. Qed.
+Print Assumptions C06_fn_assigns_global_same_type.
